@@ -108,10 +108,165 @@ pub fn forge_zero(splice: bool, n_queries: u64, pow_bits: u8) -> Result<StarkPro
     })
 }
 
+// ---------------------------------------------------------------------------------------------------------------------------------
+// `forge_vacuous <steps, e.g. 4,4,3> <log_n_cosets> <n_queries> <pow_bits>` -> proof tokens.
+// A prover with NO trace that would win if the verifier ever ran FRI with a degree bound equal to the size of the last-layer domain:
+// all-zero trace/composition columns, OODS tail = the composition value the verifier derives itself, the (non-polynomial) DEEP
+// quotient folded HONESTLY by the real `fri_formula` with the given steps, and a last layer of 2^(log_eval - sum steps) coefficients
+// interpolating whatever is left.  The proof body is fully consistent; its config declares exactly what was performed
+// (fri_step_sizes = [0] ++ steps, last-layer bound = domain size), which `StarkConfig::validate` must refuse because the folding
+// does not add up to the trace length.  tools/props/C01.py then re-declares the config in every way it can think of to get past that
+// validation WITHOUT changing the body (the config is not in the stone5 Fiat-Shamir seed): none may be accepted.
+fn row_hash(row: &[Felt]) -> Felt {
+    const R: Felt = Felt::from_hex_unchecked("0x7FFFFFFFFFFFDF0FFFFFFFFFFFFFFFFFFFFFFFFFFFFFFFFFFFFFFFFFFFFFFE1");
+    let m: Vec<Felt> = row.iter().map(|v| *v * R).collect();
+    poseidon_hash_many(&m)
+}
+struct FullTree { nodes: Vec<Felt>, height: usize }
+impl FullTree {
+    fn new(values: &[Felt], n_columns: usize) -> Self {
+        let n_rows = values.len() / n_columns;
+        let mut nodes = vec![Felt::ZERO; 2 * n_rows];
+        for r in 0..n_rows { nodes[n_rows + r] = row_hash(&values[r * n_columns..(r + 1) * n_columns]); }
+        for i in (1..n_rows).rev() { nodes[i] = poseidon_hash(nodes[2 * i], nodes[2 * i + 1]); }
+        Self { nodes, height: n_rows.trailing_zeros() as usize }
+    }
+    fn auth(&self, sorted: &[u64]) -> Vec<Felt> {
+        let mut queue: std::collections::VecDeque<u64> = sorted.iter().map(|q| q + (1u64 << self.height)).collect();
+        let mut out = vec![];
+        while let Some(cur) = queue.pop_front() {
+            if cur == 1 { break; }
+            if cur % 2 == 0 && queue.front() == Some(&(cur + 1)) { queue.pop_front(); } else { out.push(self.nodes[(cur ^ 1) as usize]); }
+            queue.push_back(cur / 2);
+        }
+        out
+    }
+}
+fn uniform_nodes_m(n_cols: usize, height: usize) -> Vec<Felt> {
+    let mut u = vec![Felt::ZERO; height + 1];
+    u[height] = row_hash(&vec![Felt::ZERO; n_cols]);
+    for d in (0..height).rev() { u[d] = poseidon_hash(u[d + 1], u[d + 1]); }
+    u
+}
+
+pub fn forge_vacuous(steps: &[u64], log_n_cosets: u64, n_queries: u64, pow_bits: u8) -> Result<StarkProof, String> {
+    use swiftness_commitment::{table::config::Config as TC, vector::config::Config as VC};
+    let mut pi = swiftness_air::fixtures::public_input::get();
+    let n = pi.main_page.0.len();
+    pi.main_page.0[n - 1].value = Felt::from(0x91u64); // FALSE statement: the fixture program outputs 0x90
+    let log_trace: u64 = to_u64(&swiftness_stark::fixtures::config::get().log_trace_domain_size);
+    let log_eval = log_trace + log_n_cosets;
+    let sum: u64 = steps.iter().sum();
+    if sum > log_eval || log_eval > 22 { return Err("bad forger parameters".into()); }
+    let log_last = log_eval - sum;
+    let nvf = Felt::from(100u64);
+    let tc = |cols: u64, h: u64| TC { n_columns: Felt::from(cols), vector: VC { height: Felt::from(h), n_verifier_friendly_commitment_layers: nvf } };
+    let (c1, c2) = (Layout::NUM_COLUMNS_FIRST, Layout::NUM_COLUMNS_SECOND);
+    let m = <Layout as LayoutTrait>::MASK_SIZE;
+    let mut inner = vec![]; let mut h = log_eval;
+    for s in steps { h -= s; inner.push(tc(1 << s, h)); }
+    let mut fss = vec![Felt::ZERO]; fss.extend(steps.iter().map(|s| Felt::from(*s)));
+    let cfg = swiftness_stark::config::StarkConfig {
+        traces: swiftness_air::trace::config::Config { original: tc(c1 as u64, log_eval), interaction: tc(c2 as u64, log_eval) },
+        composition: tc(2, log_eval),
+        fri: swiftness_fri::config::Config { log_input_size: Felt::from(log_eval), n_layers: Felt::from(steps.len() as u64 + 1), inner_layers: inner,
+            fri_step_sizes: fss, log_last_layer_degree_bound: Felt::from(log_last) },
+        proof_of_work: swiftness_pow::config::Config { n_bits: pow_bits },
+        log_trace_domain_size: Felt::from(log_trace), n_queries: Felt::from(n_queries), log_n_cosets: Felt::from(log_n_cosets),
+        n_verifier_friendly_commitment_layers: nvf,
+    };
+    let domains = StarkDomains::new(cfg.log_trace_domain_size, cfg.log_n_cosets);
+    let hh = log_eval as usize;
+    let (u1, u2, u3) = (uniform_nodes_m(c1, hh), uniform_nodes_m(c2, hh), uniform_nodes_m(2, hh));
+    let mut t = Transcript::new(pi.get_hash(cfg.n_verifier_friendly_commitment_layers));
+    let unsent_traces = swiftness_air::trace::UnsentCommitment { original: u1[0], interaction: u2[0] };
+    let tcm = Layout::traces_commit(&mut t, &unsent_traces, cfg.traces.clone());
+    let alpha = t.random_felt_to_prover();
+    let pw = |a: Felt, k: usize| { let mut o = Vec::with_capacity(k); let mut v = Felt::ONE; for _ in 0..k { o.push(v); v *= a; } o };
+    let tcoef = pw(alpha, <Layout as LayoutTrait>::N_CONSTRAINTS);
+    t.read_felt_from_prover(&u3[0]);
+    let z = t.random_felt_to_prover();
+    let mask = vec![Felt::ZERO; m];
+    let comp = Layout::eval_composition_polynomial(&tcm.interaction_elements, &pi, &mask, &tcoef, &z, &domains.trace_domain_size, &domains.trace_generator)
+        .map_err(|e| format!("{:?}", e))?;
+    let mut oods = mask.clone(); oods.push(comp); oods.push(Felt::ZERO);
+    t.read_felt_vector_from_prover(&oods);
+    let oa = t.random_felt_to_prover();
+    let ocoef = pw(oa, m + 2);
+    // DEEP quotient of the zero columns: only the first composition column's term survives
+    let kappa = -(ocoef[m] * comp);
+    let z2 = z * z;
+    let size = 1usize << log_eval;
+    let (omega, omega_inv) = (domains.eval_generator, domains.eval_generator.inverse().unwrap());
+    let mut xs = vec![Felt::ZERO; size]; let mut xinv = vec![Felt::ZERO; size];
+    { let (mut p, mut q) = (Felt::THREE, Felt::ONE);
+      for j in 0..size as u64 { let i = (j.reverse_bits() >> (64 - log_eval)) as usize; xs[i] = p; xinv[i] = q; p *= omega; q *= omega_inv; } }
+    let mut layer: Vec<Felt> = {
+        let mut prefix = Vec::with_capacity(size); let mut acc = Felt::ONE;
+        for x in xs.iter() { prefix.push(acc); acc *= *x - z2; }
+        let mut inv = acc.inverse().ok_or("oods point in the domain")?;
+        let mut out = vec![Felt::ZERO; size];
+        for i in (0..size).rev() { out[i] = kappa * inv * prefix[i]; inv *= xs[i] - z2; }
+        out };
+    let (mut fl, mut ft, mut roots) = (vec![], vec![], vec![]);
+    for s in steps {
+        let cs = 1usize << s;
+        let tree = FullTree::new(&layer, cs);
+        t.read_felt_from_prover(&tree.nodes[1]);
+        let ep = t.random_felt_to_prover();
+        let nn = layer.len() / cs;
+        let (mut next, mut nx) = (Vec::with_capacity(nn), Vec::with_capacity(nn));
+        for r in 0..nn {
+            let xi = xinv[r * cs];
+            next.push(swiftness_fri::formula::fri_formula(layer[r * cs..(r + 1) * cs].to_vec(), ep, xi, Felt::from(cs as u64)).map_err(|e| format!("{:?}", e))?);
+            nx.push(xi.pow(cs as u128));
+        }
+        roots.push(tree.nodes[1]); ft.push(tree); fl.push(layer); layer = next; xinv = nx;
+    }
+    let nl = layer.len();
+    let nl_inv = Felt::from(nl as u64).inverse().unwrap();
+    let mut last = Vec::with_capacity(nl);
+    { let mut p = vec![Felt::ONE; nl];
+      for _ in 0..nl { let mut acc = Felt::ZERO; for j in 0..nl { acc += layer[j] * p[j]; p[j] *= xinv[j]; } last.push(acc * nl_inv); } }
+    t.read_felt_vector_from_prover(&last);
+    let d = t.digest().to_bytes_be();
+    let mut nonce = 0u64; while verify_pow(d, pow_bits, nonce).is_err() { nonce += 1; }
+    t.read_uint64_from_prover(nonce);
+    let queries = generate_queries(&mut t, cfg.n_queries, domains.eval_domain_size);
+    let mut q: Vec<u64> = queries.iter().map(to_u64).collect(); q.dedup();
+    let nq = q.len();
+    let tw = |u: &Vec<Felt>, idx: &[u64]| TW { vector: VW { authentications: uniform_auth(u, hh, idx) } };
+    let mut layers = vec![]; let mut cur = q.clone();
+    for (i, s) in steps.iter().enumerate() {
+        let cs = 1u64 << s;
+        let mut cosets: Vec<u64> = cur.iter().map(|x| x / cs).collect(); cosets.dedup();
+        let mut leaves = vec![];
+        for c in cosets.iter() { for j in 0..cs { let idx = c * cs + j; if !cur.contains(&idx) { leaves.push(fl[i][idx as usize]); } } }
+        layers.push(LayerWitness { leaves, table_witness: TW { vector: VW { authentications: ft[i].auth(&cosets) } } });
+        cur = cosets;
+    }
+    Ok(StarkProof {
+        config: cfg, public_input: pi,
+        unsent_commitment: StarkUnsentCommitment { traces: unsent_traces, composition: u3[0], oods_values: oods,
+            fri: FriUnsent { inner_layers: roots, last_layer_coefficients: last }, proof_of_work: PowUnsent { nonce } },
+        witness: StarkWitness {
+            traces_decommitment: swiftness_air::trace::Decommitment { original: TD { values: vec![Felt::ZERO; nq * c1] }, interaction: TD { values: vec![Felt::ZERO; nq * c2] } },
+            traces_witness: swiftness_air::trace::Witness { original: tw(&u1, &q), interaction: tw(&u2, &q) },
+            composition_decommitment: TD { values: vec![Felt::ZERO; nq * 2] },
+            composition_witness: tw(&u3, &q),
+            fri_witness: FriWitness { layers },
+        },
+    })
+}
+
 pub fn run(op: &str, a: &[&str]) -> Option<Out> {
     Some(match op {
         "forge_zero" => match forge_zero(a[0] == "1", u64h(a[1]), u64h(a[2]) as u8) {
             Ok(p) => Out::Ok(crate::ops_proof::fmt_proof(&p)), Err(e) => Out::Err(e) },
+        "forge_vacuous" => {
+            let steps: Vec<u64> = if a[0] == "-" { vec![] } else { a[0].split(',').map(u64h).collect() };
+            match forge_vacuous(&steps, u64h(a[1]), u64h(a[2]), u64h(a[3]) as u8) {
+                Ok(p) => Out::Ok(crate::ops_proof::fmt_proof(&p)), Err(e) => Out::Err(e) } }
         _ => return None,
     })
 }
